@@ -8,12 +8,13 @@ import shutil
 from . import core
 
 SHARD = 1200
+CHUNK = {"sm": 2500, "c17": 8, "c09": 100}
 
 
 def _eval_shard(args):
     hx, corr, seed, n, out, replay, slow, mode = args
     os.makedirs(out, exist_ok=True)
-    cmd = [hx, "-seed", seed, "-n", n, "-out", out, "-slow", slow]
+    cmd = [hx, "-seed", seed, "-n", n, "-out", out, "-slow", slow, "-chunk", CHUNK.get(hx, 1500)]
     if replay:
         cmd += ["-replay", replay]
     if mode:
@@ -21,8 +22,15 @@ def _eval_shard(args):
     p = core.run_hx(cmd)
     if p.returncode != 0:
         raise RuntimeError("harness failed: " + (p.stderr or "")[-3000:])
-    bad, wall = core.coq_eval_cases(os.path.join(out, "cases.v"))
-    cases = json.load(open(os.path.join(out, "cases.json")))
+    cases, bad, wall = [], [], 0.0
+    files = sorted(glob.glob(os.path.join(out, "cases_*.v")))
+    with cf.ThreadPoolExecutor(max_workers=6) as ex:
+        for f, (b, w) in zip(files, ex.map(core.coq_eval_cases, files)):
+            cs = json.load(open(f[:-2] + ".json"))
+            off = len(cases)
+            cases += cs
+            bad += [(i + off, code, step) for (i, code, step) in b]
+            wall += w
     return cases, bad, p.wall, wall
 
 
@@ -34,6 +42,8 @@ def explore(res, hx, corr, n, seed, tag, replay=None, slow=1, mode=None, shard=N
     jobs = []
     if replay:
         jobs.append((hx, corr, seed, 0, os.path.join(base, "r"), replay, slow, mode))
+    elif n == 0:
+        jobs.append((hx, corr, seed, 0, os.path.join(base, "all"), None, slow, mode))
     else:
         k = 0
         left = n
@@ -69,6 +79,8 @@ def confirm(res, hx, corr, suspects, mode=None):
         return []
     uniq = {}
     for c, code, step in suspects:
+        if len(uniq) >= 300:
+            break
         uniq.setdefault(json.dumps(strip(c).get("ops", strip(c)), sort_keys=True), c)
     path = os.path.join(core.WORK, "%s-%s-confirm.json" % (res.prop, res.tier))
     lst = []
@@ -82,7 +94,8 @@ def confirm(res, hx, corr, suspects, mode=None):
 
 
 def standard_flow(res, hx, corr, n, signature, describe, rule, nontrivial, key, stats, assumptions,
-                  replay=None, mode=None, gen_obligations=None, level="proof", extra=None, shard=None):
+                  replay=None, mode=None, gen_obligations=None, level="proof", extra=None, shard=None, plans=None,
+                  relevant=None):
     builds = core.build_all()
     broken = []          # names of proof obligations / ties that no longer check
     if not builds["translator"]["ok"]:
@@ -117,22 +130,34 @@ def standard_flow(res, hx, corr, n, signature, describe, rule, nontrivial, key, 
             c1, b1 = explore(res, hx, corr, 0, res.seed, "corpus", replay=cp, mode=mode)
             cases += c1
             bad += b1
-        if not replay and n > 0:
+        if not replay and plans:
+            # several explorations: (tag, mode, n, shard, fixed_seed or None)
+            for tag, pmode, pn, pshard, pseed in plans:
+                c1, b1 = explore(res, hx, corr, pn, res.seed if pseed is None else pseed, tag, mode=pmode, shard=pshard)
+                for c in c1:
+                    c["_plan"] = tag
+                cases += c1
+                bad += b1
+        elif not replay and n > 0:
             c1, b1 = explore(res, hx, corr, n, res.seed, "gen", mode=mode, shard=shard)
             cases += c1
             bad += b1
     else:
         broken.append("the Coq side of the correspondence (Corr/%s.v) does not build" % corr)
 
-    suspects = [(c, code, step) for (c, code, step) in bad if code in (2, 3)]
+    if relevant:
+        bad = [(c, code, step) for (c, code, step) in bad if relevant(c, code, step)]
+    suspects = [(c, code, step) for (c, code, step) in bad if code >= 2]
     confirmed = confirm(res, hx, corr, suspects, mode=mode) if suspects else []
-    flaky = len(suspects) - len([1 for x in confirmed if x[1] in (2, 3)])
+    if relevant:
+        confirmed = [(c, code, step) for (c, code, step) in confirmed if relevant(c, code, step)]
+    flaky = len(suspects) - len([1 for x in confirmed if x[1] >= 2])
 
     def triage(found):
         """returns (violations, correspondence_breaks)"""
         vio, corr_breaks = [], []
         for c, code, step in found:
-            if code == 3:
+            if code >= 3:
                 sig = signature(c, step)
                 kf = [f for f in core.known_findings(res.prop) if f["signature"] == sig] if sig else []
                 if kf:
@@ -154,9 +179,15 @@ def standard_flow(res, hx, corr, n, signature, describe, rule, nontrivial, key, 
         # intensified search for a concrete failing history (DESIGN 6.2)
         res.notes.append("intensified search after: " + "; ".join(broken + ["%d correspondence differences" % len(corr_breaks)]))
         for extra_seed in range(1, 4):
-            c2, b2 = explore(res, hx, corr, n * 2, res.seed + 7919 * extra_seed, "search%d" % extra_seed, mode=mode, shard=shard)
+            sn, smode, sshard = n * 2, mode, shard
+            if plans:
+                rp = [p for p in plans if p[2] > 0]
+                if not rp:
+                    break
+                sn, smode, sshard = rp[0][2] * 2, rp[0][1], rp[0][3]
+            c2, b2 = explore(res, hx, corr, sn, res.seed + 7919 * extra_seed, "search%d" % extra_seed, mode=smode, shard=sshard)
             cases += c2
-            s2 = [(c, code, step) for (c, code, step) in b2 if code == 3]
+            s2 = [(c, code, step) for (c, code, step) in b2 if code >= 3 and (not relevant or relevant(c, code, step))]
             if s2:
                 v2, _ = triage(confirm(res, hx, corr, s2, mode=mode))
                 if v2:
